@@ -183,7 +183,7 @@ StepSeg ==
 \* steps 3 and 5: persistFooter's syncs (skipped with NoSync)
 StepSync ==
     /\ pc.s \in {3, 5}
-    /\ files' = IF NoSync THEN files ELSE SyncFile(files, pc.f)
+    /\ files' = IF NoSync \/ (pc.s = 3 /\ Dev("NoSyncBeforeFooter")) THEN files ELSE SyncFile(files, pc.f)
     /\ pc' = [pc EXCEPT !.s = pc.s + 1]
     /\ UNCHANGED <<nb, cur, open, ro, snaps, rm, synced, errs, lastRound, pend, faults, crashes, reverts, reopens, nextSeq, leak, hist>>
 
@@ -314,9 +314,12 @@ CloseStore ==
     /\ Log("CloseStore", [x |-> 0])
 
 \* openStore (store.go:517-636) + ScanFooter (store_footer.go:135-235).
+\* ScanFooter accepts a footer whose own bytes are intact and whose segments lie inside
+\* the file; it cannot tell whether the segment bytes themselves reached the disk (no
+\* checksum) -- that is what the sync before the footer write is for.
 ValidFooterAt(recs, i) ==
     /\ recs[i].k = "ftr" /\ recs[i].st = "ok"
-    /\ \A j \in 1..Len(recs[i].segs) : recs[i].segs[j] <= Len(recs) /\ recs[recs[i].segs[j]].st = "ok"
+    /\ \A j \in 1..Len(recs[i].segs) : recs[i].segs[j] <= Len(recs)
 LastValidFooter(recs) ==
     IF \E i \in 1..Len(recs) : ValidFooterAt(recs, i)
     THEN CHOOSE i \in 1..Len(recs) : ValidFooterAt(recs, i) /\ \A j \in (i + 1)..Len(recs) : ~ValidFooterAt(recs, j)
@@ -356,10 +359,23 @@ Recover(fs, readOnly, keepFiles) ==
                  /\ files' = IF keepFiles \/ (readOnly /\ ~Dev("ReadOnlyCleansUp")) THEN fs
                              ELSE [f \in 1..MaxFiles |-> IF f = pk[1] THEN fs[f] ELSE [ex |-> FALSE, recs |-> <<>>]]
 
-\* Crash: every durable record stays; records that were not synced since they were
-\* written are lost from the tail of the file, and the last surviving unsynced record
-\* may be torn.  With NoSync the model is process kill: nothing is lost, the last
-\* record may be torn.
+\* Crash: every durable record stays; each record that was not synced since it was
+\* written survives, is lost (its pages never reached the disk), or -- the last
+\* surviving unsynced record of a file only -- is torn; lost records at the tail shorten
+\* the file.  With NoSync the model is process kill: nothing is lost, the last record
+\* may be torn.
+UnsyncedOf(f) == {i \in 1..Len(Recs(f)) : ~Recs(f)[i].sy}
+RECURSIVE TrimLost(_)
+TrimLost(r) == IF r # <<>> /\ r[Len(r)].st = "lost" THEN TrimLost(SubSeq(r, 1, Len(r) - 1)) ELSE r
+
+\* every way of choosing, per file, which of its unsynced records survive
+RECURSIVE AllKeeps(_)
+AllKeeps(V) ==
+    IF V = {} THEN {[f \in {} |-> {}]}
+    ELSE LET f == CHOOSE x \in V : TRUE IN
+         {k @@ (f :> sv) : k \in AllKeeps(V \ {f}),
+                           sv \in (IF NoSync THEN {UnsyncedOf(f)} ELSE SUBSET UnsyncedOf(f))}
+
 Crash ==
     /\ open /\ crashes < MaxCrashes
     /\ crashes' = crashes + 1
@@ -367,23 +383,23 @@ Crash ==
     /\ lastRound' = "none"
     /\ synced' = synced /\ pend' = 0
     /\ UNCHANGED <<faults, reverts, reopens>> /\ leak' = {}
-    /\ LET Unsynced(f) == files[f].ex /\ \E i \in 1..Len(Recs(f)) : ~Recs(f)[i].sy
-           Var == {f \in 1..MaxFiles : Unsynced(f)}
-       IN \E ch \in [Var -> (0..MaxRecs) \X BOOLEAN] :
-         \* img[f] = <<number of surviving records, last one torn>>
-         LET img == [f \in 1..MaxFiles |-> IF f \in Var THEN ch[f] ELSE <<Len(Recs(f)), FALSE>>]
+    /\ LET Var == {f \in 1..MaxFiles : files[f].ex /\ UnsyncedOf(f) # {}} IN
+       \E keep \in AllKeeps(Var), torn \in [Var -> BOOLEAN] :
+         LET Surv(f) == IF f \in Var THEN (1..Len(Recs(f))) \ (UnsyncedOf(f) \ keep[f]) ELSE 1..Len(Recs(f))
+             LastU(f) == IF f \in Var /\ keep[f] # {} THEN CHOOSE i \in keep[f] : \A j \in keep[f] : j <= i ELSE 0
              fs == [f \in 1..MaxFiles |->
                       IF ~files[f].ex THEN files[f]
-                      ELSE LET n == img[f][1] torn == img[f][2] old == Recs(f) IN
-                           [ex |-> TRUE,
-                            recs |-> [i \in 1..n |-> IF i = n /\ torn THEN [old[i] EXCEPT !.st = "torn"] ELSE old[i]]]]
+                      ELSE [ex |-> TRUE,
+                            recs |-> TrimLost([i \in 1..Len(Recs(f)) |->
+                                        IF i \notin Surv(f) THEN [Recs(f)[i] EXCEPT !.st = "lost"]
+                                        ELSE IF f \in Var /\ torn[f] /\ i = LastU(f) THEN [Recs(f)[i] EXCEPT !.st = "torn"]
+                                        ELSE Recs(f)[i]])]]
          IN /\ \A f \in Var :
-                 /\ img[f][1] <= Len(Recs(f))
-                 /\ \A i \in (img[f][1] + 1)..Len(Recs(f)) : ~Recs(f)[i].sy      \* only unsynced records are lost
-                 /\ img[f][2] => (img[f][1] >= 1 /\ ~Recs(f)[img[f][1]].sy)      \* only an unsynced record is torn
-                 /\ NoSync => (img[f][1] = Len(Recs(f)))                         \* process kill: nothing is lost
+                 /\ keep[f] \subseteq UnsyncedOf(f)
+                 /\ torn[f] => keep[f] # {}
+                 /\ NoSync => keep[f] = UnsyncedOf(f)               \* process kill: nothing is lost
             /\ Recover(fs, FALSE, FALSE)
-            /\ Log("Crash", [img |-> [f \in 1..MaxFiles |-> [n |-> img[f][1], torn |-> img[f][2]]],
+            /\ Log("Crash", [img |-> [f \in 1..MaxFiles |-> [i \in 1..Len(fs[f].recs) |-> fs[f].recs[i].st]],
                               k |-> pc.k, s |-> pc.s, fex |-> [f \in 1..MaxFiles |-> files[f].ex],
                               pre |-> [j \in 1..(nb + 1) |-> ContentUpto(j - 1)]])
 
